@@ -10,7 +10,7 @@
 //	small keys  : every key the generator can return for modulus length 18, 20 (22 in thorough)
 //	              (top two bits of (P-1)/2 set): ALL m in [0,N).
 //	every key   : (tiny, small, 5 vendored 2048-bit, every key returned by GenerateKeyPair for the listed
-//	              sizes x 8 seeds) the boundary battery: plaintext alphabet {0,1,N-1,N/2,generic..}:
+//	              sizes x 8 seeds) the boundary battery: plaintext alphabet {0,1,N-1,halfN=floor(N/2),generic..}:
 //	              all elements (twice: freshness, unit), all pairs and triples for the homomorphic laws,
 //	              every out-of-domain operand just outside each bound.
 //	generated   : modulus length exact, P != Q safe primes, |P-Q| bound, PhiN, LambdaN.
@@ -396,11 +396,11 @@ func plaintextAlphabet(k *key, thorough bool) []named {
 		{"0", big.NewInt(0)},
 		{"1", big.NewInt(1)},
 		{"N-1", new(big.Int).Sub(N, bigOne)},
-		{"N/2", new(big.Int).Rsh(N, 1)},
+		{"halfN", new(big.Int).Rsh(N, 1)},
 		{"generic", gen("a")},
 	}
 	if thorough {
-		al = append(al, named{"N/2+1", new(big.Int).Add(new(big.Int).Rsh(N, 1), bigOne)}, named{"generic'", gen("b")})
+		al = append(al, named{"halfN+1", new(big.Int).Add(new(big.Int).Rsh(N, 1), bigOne)}, named{"generic'", gen("b")})
 	}
 	return al
 }
